@@ -104,6 +104,28 @@ let run_ifc lim t0 toks =
   let outs = List.map one toks in
   if !st.i_cache.err then "FUEL" else String.concat " " outs
 
+(* ---- hash_map model (coq/C07/HashMap.v), mode hm: same protocol as harness/C07_hashmap.cpp ---- *)
+let hm_digest (size : n) (l : (n list * n) list) =
+  let h = ref 0xcbf29ce484222325L in
+  List.iter (fun (k, v) ->
+    let s = hex_of_bytes k ^ "=" ^ string_of_n v ^ ";" in
+    String.iter (fun c -> h := Int64.mul (Int64.logxor !h (Int64.of_int (Char.code c))) 0x100000001b3L) s) l;
+  Printf.sprintf "%s:%016Lx" (string_of_n size) !h
+let run_hm toks =
+  let h = ref h_empty in
+  let one tok =
+    let body = match String.split_on_char ':' tok with
+      | ["I"; k; v] -> (match h_step (HInsert (bytes_of_hex k, n_of_string v)) !h with
+                        | (h', HInserted b) -> h := h'; if b then "i1" else "i0" | _ -> "?")
+      | ["F"; k] -> (match h_step (HFind (bytes_of_hex k)) !h with (_, HFound v) -> "f" ^ string_of_n v | _ -> "f-")
+      | ["E"; k] -> (match h_step (HErase (bytes_of_hex k)) !h with (h', HFound v) -> h := h'; "e" ^ string_of_n v | _ -> "e-")
+      | ["C"] -> h := fst (h_step HClear !h); "c"
+      | ["R"; n] -> let n = int_of_string n in
+          if n = 0 && !h.h_size <> N0 then "rskip" else begin h := fst (h_step (HRehash (nat_of_int n)) !h); "r" end
+      | _ -> failwith "bad hm op" in
+    body ^ ":" ^ hm_digest !h.h_size !h.h_list in
+  String.concat " " (List.map one toks)
+
 let () = main_loop (function
   | "seq" :: backend :: lim :: t0 :: toks ->
       let ops = List.map (parse_op backend) toks in
@@ -115,5 +137,6 @@ let () = main_loop (function
         | OHit (v, tr, d, g) -> "h:" ^ valtok v ^ ":" ^ trigtok tr ^ ":" ^ string_of_z d ^ ":" ^ string_of_n g ^ ":" ^ st
         | OMiss -> "m:" ^ st
         | ONone -> tag ^ ":" ^ st) ops answers)
+  | "hm" :: toks -> run_hm toks
   | ("ifc" | "ifp") :: _backend :: lim :: t0 :: toks -> run_ifc lim t0 toks
   | _ -> "BAD-CASE")
